@@ -782,10 +782,15 @@ func TestCore(t *testing.T) {
 	r := NewRun(t, "Core")
 	defer r.Close()
 	if lines := ReplayLines(); lines != nil {
-		coreRunTrace(t, r, lines)
+		for _, tr := range SplitTraces(lines) {
+			coreRunTrace(t, r, tr)
+		}
 		return
 	}
 	nTraces, nOps := r.N(60, 700), r.N(70, 130)
+	if n := os.Getenv("CORE_TRACES"); n != "" {
+		nTraces = int(atoi(n))
+	}
 	for tr := 0; tr < nTraces; tr++ {
 		g := r.Rng.Fork()
 		p := coreGenParams(g, focus)
